@@ -229,7 +229,7 @@ def run(prog, ctx):
                     ctx.fail("T4", inst, st.where, "shallow copy of an entry: both entries then own the same strings",
                              key="shallow:%s:%s" % (f.name, render(l)))
                 continue
-            ok, why = ma.is_fresh_expr(f, r)
+            ok, why = ma.is_fresh_expr(f, r, at=st)
             if ok:
                 ctx.ok("T4", inst, st.where, why)
                 continue
